@@ -82,11 +82,10 @@ func (m *model) clone(only map[string]bool) *model {
 		nf := c.file(name)
 		nf.torn = f.torn
 		for _, me := range f.ents {
-			if me.purged {
-				continue
-			}
+			// entries observed as purged stay known (returning them is never
+			// "an entry that was not appended") but are not required
 			ne := c.add(nf, me.e)
-			ne.optional, ne.complete, ne.post = me.optional, me.complete, me.post
+			ne.optional, ne.complete, ne.post, ne.purged = me.optional, me.complete, me.post, me.purged
 		}
 	}
 	return c
